@@ -19,7 +19,7 @@ CHECK_DEADLOCK FALSE
 
 POOL_QUICK = ['A', 'AI', 'DI', 'I2v', 'G', 'R1', 'Hw']
 POOL_THOROUGH = ['A', 'AI', 'D', 'DI', 'H2', 'I2v', 'G', 'GT', 'R1', 'R1T', 'Hw', 'Pr', 'PrT']
-TEMPLATES = list(range(1, 12))
+TEMPLATES = list(range(1, 13))
 
 
 def generate(tier: str) -> fx.TlcResult:
